@@ -602,3 +602,127 @@ def extract_arms(sources: SourceSet) -> SourceSet:
 
 
 VARIANTS.update({"captures-to-aliases": captures_to_aliases, "comprehension-to-loop": comprehension_to_loop, "extract-arms": extract_arms})
+
+
+class _OptionalAnnotations(ast.NodeTransformer):
+    """``X | None`` in annotations -> ``Optional[X]`` (and ``A | B`` -> ``Union[A, B]``)."""
+
+    def _conv(self, e):
+        if isinstance(e, ast.BinOp) and isinstance(e.op, ast.BitOr):
+            parts = []
+
+            def flat(x):
+                if isinstance(x, ast.BinOp) and isinstance(x.op, ast.BitOr):
+                    flat(x.left)
+                    flat(x.right)
+                else:
+                    parts.append(self._conv(x))
+
+            flat(e)
+            nones = [p for p in parts if isinstance(p, ast.Constant) and p.value is None]
+            rest = [p for p in parts if not (isinstance(p, ast.Constant) and p.value is None)]
+            inner = rest[0] if len(rest) == 1 else ast.Subscript(value=ast.Name("Union", ast.Load()), slice=ast.Tuple(elts=rest, ctx=ast.Load()), ctx=ast.Load())
+            if nones:
+                return ast.Subscript(value=ast.Name("Optional", ast.Load()), slice=inner, ctx=ast.Load())
+            return inner
+        if isinstance(e, ast.Subscript):
+            e.slice = self._conv(e.slice)
+            return e
+        if isinstance(e, ast.Tuple):
+            e.elts = [self._conv(x) for x in e.elts]
+            return e
+        return e
+
+    def visit_arg(self, node):
+        if node.annotation is not None:
+            node.annotation = self._conv(node.annotation)
+        return node
+
+    def visit_AnnAssign(self, node):
+        self.generic_visit(node)
+        node.annotation = self._conv(node.annotation)
+        return node
+
+    def visit_FunctionDef(self, node):
+        self.generic_visit(node)
+        if node.returns is not None:
+            node.returns = self._conv(node.returns)
+        return node
+
+
+def optional_annotations(sources: SourceSet) -> SourceSet:
+    out = {}
+    for rel, text in sources.files.items():
+        tree = _OptionalAnnotations().visit(ast.parse(text))
+        ast.fix_missing_locations(tree)
+        out[rel] = ast.unparse(tree) + "\n"
+    return SourceSet(out, sources.root)
+
+
+class _StripDocstrings(ast.NodeTransformer):
+    def _strip(self, node):
+        self.generic_visit(node)
+        b = node.body
+        if b and isinstance(b[0], ast.Expr) and isinstance(b[0].value, ast.Constant) and isinstance(b[0].value.value, str):
+            node.body = b[1:] or [ast.Pass()]
+        return node
+
+    visit_FunctionDef = visit_ClassDef = visit_Module = _strip
+
+
+def strip_docstrings(sources: SourceSet) -> SourceSet:
+    out = {}
+    for rel, text in sources.files.items():
+        tree = _StripDocstrings().visit(ast.parse(text))
+        ast.fix_missing_locations(tree)
+        out[rel] = ast.unparse(tree) + "\n"
+    return SourceSet(out, sources.root)
+
+
+class _KeywordConstructors(ast.NodeTransformer):
+    """Positional arguments of package dataclass constructors -> keywords (needs the field order: uses the normaliser's)."""
+
+    def __init__(self, pkg, rel, fields_of):
+        self.pkg, self.rel, self.fields_of = pkg, rel, fields_of
+
+    def visit_Call(self, node):
+        self.generic_visit(node)
+        f = node.func
+        name = f.id if isinstance(f, ast.Name) else f.attr if isinstance(f, ast.Attribute) else None
+        if not name or not name[:1].isupper() or any(isinstance(a, ast.Starred) for a in node.args) or not node.args:
+            return node
+        key = self.pkg.resolve_class(self.rel, name)
+        if key is None:
+            return node
+        fields = self.fields_of(key)
+        if not fields:
+            return node
+        positional = [nm for nm, kwo in fields if not kwo]
+        if len(node.args) > len(positional):
+            return node
+        node.keywords = [ast.keyword(arg=nm, value=a) for nm, a in zip(positional, node.args)] + node.keywords
+        node.args = []
+        return node
+
+
+def keyword_constructors(sources: SourceSet) -> SourceSet:
+    from ..normalize import _Package, _init_fields
+
+    trees = {rel: ast.parse(text) for rel, text in sources.files.items()}
+    pkg = _Package(trees)
+    cache: dict = {}
+
+    def fields_of(key):
+        if key not in cache:
+            cache[key] = _init_fields(pkg, key)
+        return cache[key]
+
+    out = {}
+    for rel, tree in trees.items():
+        tree = _KeywordConstructors(pkg, rel, fields_of).visit(tree)
+        ast.fix_missing_locations(tree)
+        out[rel] = ast.unparse(tree) + "\n"
+    return SourceSet(out, sources.root)
+
+
+VARIANTS.update({"optional-annotations": optional_annotations, "strip-docstrings": strip_docstrings, "keyword-constructors": keyword_constructors})
